@@ -16,6 +16,7 @@ fn main() {
 
     arith::window_cases(&mut cs, &mut st, &[K_ROW, K_COL], &[-1, -2, -3, -4], a.thorough);
     ops::cmap_window(&mut cs, &mut st, &[K_ROW, K_COL], &[-1, -2, -4, -7]);
+    ops::valid_cases(&mut cs, &mut st, &[-1, -2, -7, 0]);
     ops::app_window(&mut cs, &mut st, &[K_ROW, K_COL], if a.thorough { &[-1, -2, -3, -4, -7] } else { &[-1, -2, -7] }, a.thorough);
 
     let mut scratch = Scratch::new();
